@@ -124,6 +124,10 @@ def _(value: Flag):
 
 
 def sort_set_values(set_values):
+    # start with an order which does not depend on hashes,
+    # because partially ordered values like frozensets can be "sorted" in different ways
+    set_values = sorted(set_values, key=repr)
+
     is_sorted = False
     try:
         set_values = sorted(set_values)
